@@ -69,4 +69,17 @@ PROPS = {
             "Bitboard::is_current_in_check is assumed here with contract spec/contracts/is_current_in_check.txt (verified in unit attacks, C05)",
         ],
     },
+    "C13": {
+        "title": "move strings: a rejected move changes nothing (frame contracts on find_uci / make_uci / is_move_legal)",
+        "units": ["uci_moves"],
+        "deciding": [r"^Bitboard::(find_uci|make_uci|make_all_uci|is_move_legal|make|unmake|is_valid)$", r"^find_generated$", r"^str_trim$", r"^lemma_kings_preserved$"],
+        "owned": [r"^Bitboard::(find_uci|make_uci|make_all_uci|is_move_legal)$"],
+        "design_ref": "DESIGN.md §3 C13",
+        "assumptions": [
+            "Bitboard::make / unmake / is_valid are assumed here with the contract files spec/contracts/{make,unmake,is_valid}.txt; their bodies are verified against the same files in units board_make (C02/C03) and attacks (C05)",
+            "find_generated (ASSUMED): the iterator chain generate_pseudo_legal_moves().into_iter().find(..).ok_or_else(..) returns an error or one generated move; generated moves of a legal position satisfy move_wf and capture no king (generator contract, C01)",
+            "not decided: that the move selected is the one the text denotes (string equality over format!)",
+            "precondition legal_pos: well-formed position in which the side not to move is not in check",
+        ],
+    },
 }
